@@ -88,6 +88,13 @@ def cv_c04(tier):
         J.append((p, 1 if tier == 'quick' else 2, 1 if 'd' in p else 0))
     for p in ['WwN|Ww|@2 S|N', 'WrN|Wn|@2 S|N', 'WwN|WwN|@2 S|N', 'CwdN|Ww|@2 S\'|N']:
         J.append((p, 1 if tier == 'quick' else 2, 1 if 'd' in p else 0))
+    # a wake-up issued AFTER the critical section while an unrelated thread holds the mutex: the waiter is transferred
+    # to the mutex queue, and that holder's unlock may run anywhere inside the transfer (seeded change C04e: MU_WAITING
+    # published only when the transfer ends).  Needs three preemptions with three threads.
+    for w in ['Ww', 'Wr', 'Wg', 'Wwd']:
+        for k in ["S'", "B'"]:
+            for l in ['L', 'R']:
+                J.append(('%s|@1 %s|%s' % (w, k, l), 3, 1 if 'd' in w else 0))
     if tier == 'thorough':
         for p in cv_pairs(CV_CORE + ['Wgd', 'Cnd', 'Cwd'], CV_WAKERS): J.append((p, 3, 1))
         for p in cv_pairs(CV_CORE, CV_WAKERS): J.append((p, 2, 2))
@@ -179,6 +186,12 @@ def mw_c06(tier):
             for b in ws[i:]:
                 J.append(('|'.join([a, b, '@2 A', '@2 B']), 2, 0))
                 J.append(('|'.join([a, b, '@2 A B']), 3, 0))
+    # a reader still inside while a reader-mode waiter starts to wait and a writer is already queued: the waiter's
+    # release must notice that it has become the last reader (seeded change C06e: decision hoisted out of the CAS loop)
+    for p in ['R@1|Mr1|@1 Z', 'R@1|Mr1|@1 A', 'R@1|Mr2|@1 A B', 'R@1|Mr1d|@1 Z', 'R@1|Mr3|@1 A']:
+        J.append((p, 2 if tier == 'quick' else 3, 1 if 'd' in p else 0))
+    if tier == 'thorough':
+        for p in ['R@1|Mr1|@1 Z|R', 'R@2|Mr1|Mr2|@2 A B', 'R@1|Mr1|@1 A|@1 Z']: J.append((p, 2, 0))
     return J
 
 # a timed-out conditional wait that acquires through the timeout path must leave no queue bits behind: a plain
@@ -198,6 +211,13 @@ def mw_c05(tier):
             J.append(('|'.join(t), Pq if len(t) == 2 else 2, 2 if len(t) == 2 or tier == 'thorough' else 1))
     for p in ['Mw1d|Mw1d|@2 A', 'Mw1d|Mr1d|Z', 'Mw1d|Mw2|@2 B', 'Mr1d|Mr1d|R', 'Mw1N|Mw1d|@2 N|Z']:
         J.append((p, 2 if p.count('|') == 2 else 1, 1 if tier == 'quick' else 2))
+    # stolen wake-up: the condition is made true, the waiter is woken, and the condition is falsified again before it
+    # runs; it queues a second time inside the same call, and THEN its deadline / note ends the wait (seeded change
+    # C05e: state sampled once per call instead of once per queueing)
+    for p in ['Mw1d|@1 A a0', 'Mr1d|@1 A a0', 'Mw2d|@1 B b0', 'Mw1N|@1 A a0|N', 'Mw1dz|@1 A a0']:
+        J.append((p, 3 if tier == 'quick' else 5, 1 if tier == 'quick' else 2))
+    for p in ['Mw1d|@1 A|a0', 'Mr1d|@1 A|@1 a0', 'Mw1d|Mw1d|@2 A a0', 'Mw1N|@1 A|a0|N']:
+        J.append((p, 1 if p.count('|') == 3 else 2, 1))
     return J
 
 def mw_c04(tier):
@@ -285,7 +305,10 @@ def note_c09(tier):
              '----:fG|nC|iR', '----:fC|iG|nR', '----:nG|nC|fR', '----:fC|wG|nR', '--1-:fC|wG', '-1--:fC|wG|iR', '----:kC|kC|nR', '----:kG|nC|fS', '----:fC fG|nR', '----:fG fC|nR|iS',
              '----:nG|nG|nC', '----:nC|nR|fG', '----:fS|fC|fG', '----:nG|fC|fS|nR', '----:nC|nC|fR|iG', '----:kC|fG|nR|iS',
              '---x:fR|fC', '---x:fR|fC|iG', '----:fR|fC|fS', '----:fC|fR|nG', '---x:fC|fR|wG', '----:nR|fC|wG', '----:nR|fC|fS', '-1--:fC|wG|iR', '----:fC|nR|nR', '----:fC|fG|nR|fS',
-             '----:nR fR|fC|nG', '----:nR fR|fC|fG', '----:nR fR|fC|wG', '---x:nR fR|fC|nG', '----:nC fC|fG|nG', '----:nR fR|fS|fC']
+             '----:nR fR|fC|nG', '----:nR fR|fC|fG', '----:nR fR|fC|wG', '---x:nR fR|fC|nG', '----:nC fC|fG|nG', '----:nR fR|fS|fC',
+             # creation of a child racing with a notification of the parent; the parent is then freed and the kept
+             # child afterwards (seeded change C09e)
+             '----:KR QR|nR aR fR', '----:KC QC|nR aC fC', '----:KC QC|nC aC fC|iR', '--xx:KR QR|KR QR|nR aR fR', '----:KG QG|fC|nR aG fG']
     for p in progs:
         n = p.count('|') + 1
         if tier == 'quick': P = 3 if n == 2 else 2 if n == 3 else 1
